@@ -242,6 +242,12 @@ func collectVars(fset *token.FileSet, f *ast.File, rel string, src []byte) []pkg
 	return r
 }
 
+// isDescMap recognises the process-wide descriptor map (a 512 KB array of slots created by a
+// zero-returning constructor) by its initialiser, whatever the variable is called.
+func isDescMap(v *pkgVar) bool {
+	return v.Init == "newMapStructDesc()"
+}
+
 // genHook writes VerifReset for one package from its package-level variables.
 func genHook(pkg string, all []pkgVar) ([]byte, []pkgVar) {
 	var vars []pkgVar
@@ -260,8 +266,11 @@ func genHook(pkg string, all []pkgVar) ([]byte, []pkgVar) {
 		case immutable[v.Name] || strings.HasPrefix(v.Name, "err"):
 			v.Class = "immutable-after-init"
 		case v.Type == "sync.Mutex" || v.Type == "sync.RWMutex" || v.Type == "sync.Once" || v.Type == "sync.WaitGroup":
-			v.Class = "sync-primitive"
-		case v.Name == "sds" && strings.HasPrefix(v.Init, "new") && strings.HasSuffix(v.Init, "()"):
+			// back to the zero value: a Once that has fired (or a lock left held by an aborted execution)
+			// would make the next execution take other paths than a fresh process
+			v.Class = "sync-primitive-reset"
+			fmt.Fprintf(&body, "\t%s = %s{}\n", v.Name, v.Type)
+		case isDescMap(v):
 			// the 512 KB descriptor map is emptied in place: allocating a fresh one per execution made
 			// the collector and the scavenger the dominant cost of every check
 			v.Class = "reset-in-place"
@@ -277,7 +286,7 @@ func genHook(pkg string, all []pkgVar) ([]byte, []pkgVar) {
 			v.Class = "unknown"
 		}
 		// the light reset leaves out the (512 KB) descriptor map: used with never-seen-before types
-		if v.Name != "sds" {
+		if !isDescMap(v) {
 			light.Write(body.Bytes()[before:])
 		}
 	}
